@@ -25,9 +25,14 @@
    Entry kinds (part 4): the on-disk tree with regular files, directories, symbolic links (with
    what they resolve to) and FIFOs; the walk sees it through Lstat.  C20_walk_sees_lstat,
    C20_discovery_by_kind, C20_link_is_hook_whatever_target, C20_file_or_fifo_is_hook,
-   C20_bad_hook_fails_init, C20_model_satisfies_PX. *)
+   C20_bad_hook_fails_init, C20_model_satisfies_PX.
+
+   What a valid configuration declares (part 5): the registry of C20_Model (index by binding type,
+   by-name index, list of names) for EVERY assignment of configurations to hooks.
+   C20_hook_set_whatever_the_configs, C20_hook_set_is_discovery, C20_binding_index,
+   C20_bound_hook_is_in_the_set, C20_no_binding_still_a_hook, C20_model_satisfies_PC. *)
 From Coq Require Import Sorted.
-From Verif Require Import Common C20_Model C20_Spec C20_Corr C20_Proofs C20_NameProofs C20_KindProofs.
+From Verif Require Import Common C20_Model C20_Spec C20_Corr C20_Proofs C20_NameProofs C20_KindProofs C20_ConfigProofs.
 Local Open Scope N_scope.
 
 (* the discovered hooks are exactly the files meeting the conditions of the statement *)
@@ -364,3 +369,85 @@ Example C20_kinds_hyp_met :
      = ErrGetConfig ([47; 119; 47; 104; 47; 109; 111; 100; 47] ++ b_sh 104)
   /\ PX ex_kinds_input (model_of (to_input ex_kinds_input)) = true.
 Proof. repeat split; try (vm_compute; reflexivity). vm_compute. tauto. Qed.
+
+(* ==================================================================== *)
+(* part 5: WHAT a valid configuration declares does not matter for the hook set   *)
+(* ==================================================================== *)
+
+(* the list of names and the by-name index of the registry are those of the plain --config round
+   (C20_config_once, C20_index_holds_every_hook speak about them) for EVERY assignment cfg of
+   configurations to hooks - so two assignments give the same hook set *)
+Theorem C20_hook_set_whatever_the_configs : forall parent root cs beh cfg,
+  rg_names (registry_of parent root cs beh cfg) = names (init parent root cs beh)
+  /\ rg_by_name (registry_of parent root cs beh cfg) = hooks_by_name parent root cs beh.
+Proof. exact registry_names_by_name. Qed.
+Print Assumptions C20_hook_set_whatever_the_configs.
+
+(* after a successful Init the registered names are exactly the discovered executables (as a list,
+   so in lexical order too); a name is found in the by-name index iff it is a discovered file, and
+   every discovered file is found under its relative path - for all trees, all configurations *)
+Theorem C20_hook_set_is_discovery : forall parent root cs beh cfg,
+  result (init parent root cs beh) = InitOk ->
+  rg_names (registry_of parent root cs beh cfg) = discover parent root cs
+  /\ (forall n, In n (discover parent root cs) <->
+                exists p, index_get (rg_by_name (registry_of parent root cs beh cfg)) n = Some p)
+  /\ (forall p, In p (get_executable_paths parent root cs) ->
+        index_get (rg_by_name (registry_of parent root cs beh cfg)) (rel (working_dir parent root) p) = Some p).
+Proof. exact hook_set_is_discovery. Qed.
+Print Assumptions C20_hook_set_is_discovery.
+
+(* the index by binding type after a successful Init: exactly the discovered hooks whose
+   configuration declares the type, in load order *)
+Theorem C20_binding_index : forall parent root cs beh cfg b,
+  result (init parent root cs beh) = InitOk ->
+  rg_in_order (registry_of parent root cs beh cfg) b
+  = filter (fun n => has_binding (cfg n) b) (discover parent root cs).
+Proof. exact binding_index. Qed.
+Print Assumptions C20_binding_index.
+
+(* at any time (also when Init fails half-way): a hook listed under a binding type is in the hook set *)
+Theorem C20_bound_hook_is_in_the_set : forall parent root cs beh cfg b n,
+  In n (rg_in_order (registry_of parent root cs beh cfg) b) -> In n (rg_names (registry_of parent root cs beh cfg)).
+Proof. exact in_order_subset_of_names. Qed.
+Print Assumptions C20_bound_hook_is_in_the_set.
+
+(* a discovered hook whose valid configuration declares NO binding is listed under no binding type
+   and is a member of the hook set, found under its name and bound to its own file *)
+Theorem C20_no_binding_still_a_hook : forall parent root cs beh cfg n,
+  result (init parent root cs beh) = InitOk ->
+  In n (discover parent root cs) -> cfg n = [] ->
+  (forall b, ~ In n (rg_in_order (registry_of parent root cs beh cfg) b))
+  /\ In n (rg_names (registry_of parent root cs beh cfg))
+  /\ index_get (rg_by_name (registry_of parent root cs beh cfg)) n = Some (working_dir parent root ++ slash :: n).
+Proof. exact no_binding_still_a_hook. Qed.
+Print Assumptions C20_no_binding_still_a_hook.
+
+(* the whole predicate, with the clause that judges GetHookNames / GetHook against the discovery
+   file by file without looking at the configurations *)
+Theorem C20_model_satisfies_PC : forall xi,
+  wf_children (map lstat (x_children xi)) = true -> PC xi (model_of (to_input xi)) = true.
+Proof. exact PC_model. Qed.
+Print Assumptions C20_model_satisfies_PC.
+
+(* non-vacuity: the layout of the demonstration
+     001-startup.sh    onStartup               (no entry: the default shape)
+     sub/idle.sh       configVersion + settings only: NO binding   (code 11 = shape 1)
+     zzz-schedule.sh   one schedule binding                       (code 15 = shape 5)
+   Init succeeds, all three are hooks, sub/idle.sh is under no binding type *)
+Definition b_idle : bytes := [115; 117; 98; 47; 105; 100; 108; 101; 46; 115; 104].          (* sub/idle.sh *)
+Definition b_startup : bytes := [48; 48; 49; 45; 115; 116; 97; 114; 116; 117; 112; 46; 115; 104].
+Definition b_zzz : bytes := [122; 122; 122; 45; 115; 99; 104; 101; 100; 117; 108; 101; 46; 115; 104].
+Definition ex_cfg_input : xinput :=
+  mkXInput [47; 119] [104]
+    [XFile b_startup 493; XDir [115; 117; 98] [XFile [105; 100; 108; 101; 46; 115; 104] 493]; XFile b_zzz 493]
+    [(b_idle, 11); (b_zzz, 15)] true.
+Example C20_configs_hyp_met :
+  let i := to_input ex_cfg_input in
+  wf_children (i_children i) = true
+  /\ result (init (i_parent i) (i_root i) (i_children i) (beh_of i)) = InitOk
+  /\ discover (i_parent i) (i_root i) (i_children i) = [b_startup; b_idle; b_zzz]
+  /\ cfg_of i b_idle = [] /\ cfg_of i b_zzz = [BSchedule] /\ cfg_of i b_startup = [BOnStartup]
+  /\ rg_names (registry_of_input i) = [b_startup; b_idle; b_zzz]
+  /\ bound_obs_of i = [[b_startup]; [b_zzz]; []; []; []; []]
+  /\ PC ex_cfg_input (model_of i) = true.
+Proof. cbv zeta. repeat split; vm_compute; reflexivity. Qed.
